@@ -17,13 +17,13 @@ CLAIMED = {
              "errno of each failing edge, no effect before the guards), who-writes-state, every call of start()/stop() only from the documented "
              "source states decided after the last user callback, running-counter pairing, hook invocation sites and their request constants, "
              "callbacks bracketed by a module reference, handler only for RUNNING modules on all three delivery paths, module passes that no "
-             "callback result can abort, both evaluation passes present. Decides these necessary conditions for every history; does not explore sequences.",
+             "callback result can abort, both evaluation passes present and gated by a counter that every processed event increments, the state store precedes every hook. Decides these necessary conditions for every history; does not explore sequences.",
         tech="custom CFG must-fact dataflow with user-callback kill sets + who-writes/who-calls queries + path enumeration (libTooling facts)",
         ref="DESIGN.md §4 C01"),
     "C07": dict(
         text="Static rules: EEXIST guard and single attach/detach sites of the thread-specific slot, guard table of the 13 m_ctx_* entry points "
              "(-EPIPE/NULL before any effect), typestate 'no context lookup after detach' over the call graph, teardown order pass→detach→unref on every "
-             "successful path with a callback that cannot abort the pass, no re-entrant release during the pass, IDLE guard, agreement of the two "
+             "successful path with a callback that cannot abort the pass, no re-entrant release and no registration during the pass (teardown marker), IDLE guard, agreement of the two "
              "auto-release sites, finalize gate, interprocedural must-analysis that pthread_once precedes every use of the key.",
         tech="typestate + must-pass dataflow over CFG and call graph, sibling comparison, guard tables",
         ref="DESIGN.md §4 C07"),
@@ -31,7 +31,7 @@ CLAIMED = {
         text="Structural clauses of the ordered set decided statically: the default comparator does not narrow a pointer difference; in "
              "remove_node the destructor receives the payload of the node that is freed and payloads moved between nodes are swapped, never "
              "duplicated; the three traversals have the documented visiting order and stop on a non-zero result; -EEXIST iff the search ended on "
-             "a node; node allocation/free pair with len++/len-- on every path; the destructor is reachable exactly from the removing operations. "
+             "a node; node allocation/free pair with len++/len-- on every path; the destructor is reachable exactly from the removing operations; iterator remove/get refuse after a removal; no full-width difference in the default comparator. "
              "Sortedness for all insertion orders and iterator survival are not decided (shape dependent).",
         tech="AST/CFG shape rules with copy propagation, implicit-cast (narrowing) inspection, path enumeration, who-calls over resolved function pointers",
         ref="DESIGN.md §4 C11"),
@@ -39,7 +39,7 @@ CLAIMED = {
         text="Structural clauses of queue/stack/list decided statically: who writes the queue tail and that NULL is stored there only under a test "
              "of head/len; node allocation/free pair with len++/len-- on every path of every function; destructor only in the removing operations, "
              "under a non-NULL test, on the payload of the freed node, never reachable from operations that hand the element back; link/advance "
-             "primitives (enqueue at tail, dequeue/peek at head, push/pop/peek at top, list walks next from data). Arbitrary operation/iterator "
+             "primitives (enqueue at tail, dequeue/peek at head, push/pop/peek at top, list walks next from data); the tail never keeps pointing at a freed node; every list-iterator step resets its compensation; iterator operations refuse after a removal. Arbitrary operation/iterator "
              "sequences are not decided.",
         tech="who-writes + control-dependence (must-facts) on CFG, per-path bookkeeping counts, resolved indirect-call reachability",
         ref="DESIGN.md §4 C12"),
@@ -48,7 +48,7 @@ CLAIMED = {
              "path (ownership followed into the callee); a replaced/cleared value is destroyed first exactly when a destructor is set, keys are "
              "released exactly when owned, the destructor is reachable only from put-update and clear; whole-entry memcpy is a move; key stores "
              "pair with length++/--; table_size only takes power-of-two values and matches the allocation; growth precedes the slot search and "
-             "probe loops are bounded; a no-update map refuses with -EPERM without effect. Probing/back-shift correctness for colliding or wrapping "
+             "probe loops are bounded and the back-shift decision involves the table size; a no-update map refuses with -EPERM without effect; the destructor never runs for a value that stays stored; iterator operations refuse after a removal. Probing/back-shift correctness for colliding or wrapping "
              "clusters and exactly-once iteration depend on hash values and are not decided.",
         tech="path-sensitive ownership (escape) analysis, per-path pairing counts, who-writes with constant evaluation (libTooling CFG facts)",
         ref="DESIGN.md §4 C05"),
@@ -70,7 +70,7 @@ CLAIMED = {
         text="Lock discipline of the thread pool decided statically: lock/unlock pairing on every path of every function (failed lock modelled), "
              "lockset per thread role (worker / submitters / freeing thread / constructor) for the fields declared lock protected, condition "
              "variable used in a predicate loop with signal/broadcast under the lock, the worker's hand-off shape (dequeue under lock, never when "
-             "WAITCURR or empty, one unlocked call fn(arg), then free; fn/arg stored once from the parameters), join dominating the 'no active "
+             "WAITCURR or empty, one unlocked call fn(arg), then free; fn/arg stored once from the parameters; shutdown mode re-tested after waking; lazy growth adds one thread below max_threads), join dominating the 'no active "
              "threads' store and reverse-order teardown. These are the necessary conditions for race/deadlock freedom; schedules are not explored "
              "(deadlock freedom, lost wake-ups, liveness of free are not decided). Known finding K5 (detached pools are not awaited) is reported.",
         tech="lockset/typestate dataflow on the CFG with a thread-role table, loop-fragment path enumeration, dominance",
@@ -110,14 +110,14 @@ CLAIMED = {
              "effect), decrements once, and every other effect is behind the decrement; the 13 public source calls act only through them; the "
              "counter is decremented only under tokens > 0, incremented only in push_evt for the bucket's own timer under tokens < burst, stored "
              "only with burst/UINT64_MAX at the three documented sites; refill timer period/flags/user pointer agree with what push_evt recognises; "
-             "rate 0 and stop restore every field. The bound b + r*t over wall-clock time is not decided.",
+             "rate 0 (which also removes a registered refill timer first) and stop restore every field. The bound b + r*t over wall-clock time is not decided.",
         tech="guard tables + must-pass (tag) dataflow + who-writes with constant evaluation",
         ref="DESIGN.md §4 C18"),
     "C19": dict(
         text="Static rules: each system topic is emitted at exactly one site in the function that performs the corresponding transition; per-path "
              "counts in start/stop/loop_start/loop_stop (exactly one emission on paths that store the new state, none on the -ENOENT/refusing arms), "
              "after the store and the hook; argument dataflow (sender = the module whose state changed, NULL for context notifications), the "
-             "message template (system=true, data=NULL, flags=0), nobody rewrites the system flag, CTX_STOPPED emitted before the final flush.",
+             "message template (system=true, data=NULL, flags=0), nobody rewrites the system flag, CTX_STOPPED emitted before the final flush, a tick period store is bracketed by deregistration and fresh registration of the tick source.",
         tech="who-calls with string constants + per-path pairing counts + initialiser dataflow",
         ref="DESIGN.md §4 C19"),
     "C09": dict(
@@ -126,7 +126,7 @@ CLAIMED = {
              "its record layout, the type the comparator bound for T reads; comparators must not return a narrowed/overflowing difference (int "
              "differences accepted only for keys public guards keep non-negative); a refused insertion releases the new source and returns the "
              "error; validation precedes registration; m_mod_src_len's type parameter must influence the result and internal sources are skipped; "
-             "registry removal only for (RM, stop); task deregistration always refuses; same-topic/same-flags subscription updates in place.",
+             "registry removal only for (RM, stop) and on every path of stop(); an accepted source is never released while in its set; task deregistration always refuses; same-topic/same-flags subscription updates in place (regex released), a replaced subscription is removed with its key, the map is keyed by the subscription own topic.",
         tech="type/record-layout compatibility between call sites and function-pointer-bound comparators, implicit-cast inspection, path enumeration, def-use",
         ref="DESIGN.md §4 C09, A.6"),
     "C14": dict(
@@ -153,7 +153,7 @@ CLAIMED = {
              "pipe-full path (written or released, nothing else released), payload-owner rule for M_PS_AUTOFREE (no per-recipient destructor frees "
              "the payload; one ref-counted holder per send, referenced by each copy, dropped by the sender after fan-out), flush pass on every path "
              "of loop_stop between CTX_STOPPED and poll_clear, contradiction rule on the nullable subscription pointer followed into callees, drain "
-             "before removal on stop. Recipient sets for concrete subscription populations, regex matching and >= 8192 pending messages are not decided.",
+             "before removal on every stop path, direct tells deliverable whatever their topic (poison pill), broadcast pass not abortable, one fate per flushed message. Recipient sets for concrete subscription populations, regex matching and >= 8192 pending messages are not decided.",
         tech="must-fact guards, path-sensitive ownership, allocation-multiplicity (per-recipient vs per-send) over the resolved call graph, null-deref contradiction rule with callee summaries",
         ref="DESIGN.md §4 C02"),
     "C04": dict(
@@ -162,7 +162,7 @@ CLAIMED = {
              "parameters and the iterate binding), every stored/registered/thread-handed pointer to a ref-counted object is a counted reference or "
              "a transferred fresh object, every fresh object is stored/consumed/returned/released on every feasible path (allocation-failure paths "
              "exempt), nullable fields are not dereferenced unguarded (callee summaries), no dereference after the releasing unref within a "
-             "function, destructors release every owning field, layout facts behind the casts. Known findings K1, K3, K4 (borrowed pointers whose "
+             "function, destructors release every owning field, the registration reference is dropped only under a temporary reference, layout facts behind the casts. Known findings K1, K3, K4 (borrowed pointers whose "
              "holder can outlive the object) are reported, each with the failing history.",
         tech="inter-procedural provenance/taint, escape (ownership) analysis over feasible paths, contradiction rule for NULL, record layouts",
         ref="DESIGN.md §4 C04"),
@@ -170,7 +170,7 @@ CLAIMED = {
         text="Static rules: every close() site is one of six listed kinds with the facts that make it safe (own pipe ends, epoll handle, internal "
              "descriptor under type > FD on RM, auto-close descriptor of a PS/FD source — decided over feasible paths with constant propagation); "
              "every descriptor-creating call is in the pairing table with its closing counterpart (internal descriptors only on ADD, dup forces "
-             "AUTOCLOSE, pipe read end registered auto-close); all per-kind descriptors alias fd_src.fd at offset 0; the poll removal in the source "
+             "AUTOCLOSE, pipe read end registered auto-close, a descriptor is created only together with a fresh poll record, every required close site present); all per-kind descriptors alias fd_src.fd at offset 0; the poll removal in the source "
              "destructor must be reached on every path; a closed field is reset to -1. Counts of open descriptors per history are not decided. "
              "Known finding K2 (poll removal only while the owner is RUNNING) is reported.",
         tech="who-calls/provenance tables, must-pass dataflow, record layouts, feasible-path enumeration",
